@@ -65,14 +65,14 @@ Theorem rto_complete_square (b : 'cV[F]_p) (m x : 'cV[F]_n) :
   (M *m x - b)^T *m (M *m x - b) = (M *m m - b)^T *m (M *m m - b) + (x - m)^T *m H *m (x - m).
 Proof.
 move=> E.
-have -> : M *m x - b = (M *m m - b) + M *m (x - m).
-  by rewrite mulmxBr [RHS]addrC addrA subrK.
-have Z : M^T *m (M *m m - b) = 0 by rewrite mulmxBr mulmxA -/H E subrr.
-have Z' : (M *m m - b)^T *m M = 0 by rewrite -[M]trmxK -trmx_mul [X in X^T]Z trmx0.
-rewrite linearD /= mulmxDl !mulmxDr.
-rewrite [(M *m m - b)^T *m (M *m (x - m))]mulmxA Z' mul0mx addr0.
-rewrite [(M *m (x - m))^T *m (M *m m - b)]trmx_mul -mulmxA Z mulmx0 add0r.
-by rewrite trmx_mul -!mulmxA [M^T *m (M *m _)]mulmxA.
+set u := M *m m - b; set v := x - m.
+have -> : M *m x - b = u + M *m v by rewrite /u /v mulmxBr [RHS]addrC addrA subrK.
+have Z : M^T *m u = 0 by rewrite /u mulmxBr mulmxA -/H E subrr.
+have Z' : u^T *m M = 0 by apply: trmx_inj; rewrite trmx_mul trmxK Z trmx0.
+rewrite [(u + _)^T]raddfD /= mulmxDl 2!mulmxDr.
+rewrite [u^T *m (M *m v)]mulmxA Z' mul0mx addr0.
+rewrite !trmx_mul -[v^T *m M^T *m u]mulmxA Z mulmx0 add0r.
+by rewrite -!mulmxA [M^T *m (M *m _)]mulmxA.
 Qed.
 End General.
 
@@ -109,12 +109,11 @@ Theorem rto_normal_equations (e : 'cV[F]_(m + r)) (x : 'cV[F]_n) :
 Proof.
 move=> M bt Lam P Hp G U E.
 have EH : M^T *m M = Hp by rewrite /M block_H.
-rewrite EH in E.
-rewrite -EH in U.
+have U' : M^T *m M \in unitmx by rewrite EH.
 split.
 - rewrite /G -EH -[A^T *m Lam *m b + P *m mu]block_rhs -/M -/bt.
-  exact: rto_affine.
-- by rewrite /G -EH; exact: rto_cov.
+  exact: (rto_affine U' E).
+- rewrite /G -EH; exact: (rto_cov U').
 Qed.
 End Blocks.
 
